@@ -12,7 +12,7 @@ from concurrent.futures import ThreadPoolExecutor
 
 HERE = os.path.dirname(os.path.dirname(os.path.abspath(__file__)))
 REPO = "/repo"
-SRC = "indextree/src"
+SRC = os.environ.get("AUTOMUT_SRC", "indextree/src")
 
 SWAPS = [("previous_sibling", "next_sibling"), ("next_sibling", "previous_sibling"), ("first_child", "last_child"), ("last_child", "first_child"),
          ("is_some()", "is_none()"), ("is_none()", "is_some()"), (" == ", " != "), (" != ", " == "), (" < ", " <= "), (" > ", " >= "),
@@ -84,7 +84,7 @@ def run_one(m, props):
                 shutil.copy(s, os.path.join(d, item))
         open(os.path.join(d, SRC, m["file"]), "w").write(m["text"])
         env = dict(os.environ, CARGO_TARGET_DIR=os.path.join(d, "target"), CARGO_NET_OFFLINE="true")
-        r = subprocess.run(["cargo", "build", "--offline", "-q", "-p", "indextree"], cwd=d, env=env, stdout=subprocess.PIPE, stderr=subprocess.STDOUT, text=True)
+        r = subprocess.run(["cargo", "build", "--offline", "-q", "--workspace"], cwd=d, env=env, stdout=subprocess.PIPE, stderr=subprocess.STDOUT, text=True)
         if r.returncode != 0:
             res["status"] = "no-compile"
             return res
